@@ -130,7 +130,8 @@ type Node struct {
 	Handler func(rc *ReqCtx)
 
 	Supported         map[string][]string
-	AuthClass         string // "" = no authentication
+	AuthClass         string // class sent in AUTHENTICATE; "" = no authentication unless RequireAuth
+	RequireAuth       bool   // demand authentication even with an empty class name
 	CompressResponses bool
 	RefuseDial        string // "" accept; "refuse" fail; "stall" block until ctx is done
 	Partitioner       string
@@ -453,7 +454,7 @@ func (n *Node) dispatch(rc *ReqCtx) {
 		if c := req.Options["COMPRESSION"]; c != "" {
 			rc.Conn.Compress = c
 		}
-		if n.AuthClass != "" {
+		if n.AuthClass != "" || n.RequireAuth {
 			rc.Reply(&cqlspec.Response{Kind: "AUTHENTICATE", Class: n.AuthClass})
 			return
 		}
